@@ -76,4 +76,7 @@ Definition check_site (c : site_case) : list string :=
     | _ :: ms => cmp k (s_obs c) (fun n => list_eqb String.eqb (s_out c) [fmt_n (N.of_nat n)]) (split_parts (map mkind_of ms))
     | [] => ["mismatch:malformed-case"]
     end
+  else if k =? "fields" then
+    (* strings.Fields itself, on arbitrary bytes: the model of the library function the splitter relies on *)
+    tag_if (negb (list_eqb String.eqb (go_fields (s_in c)) (s_out c))) "mismatch:value-fields"
   else ["mismatch:unknown-kind"].
